@@ -12,6 +12,9 @@ import (
 // evaluation order) and a plain term.  want is the type the context gives an untyped nil.
 func (ft *funcTr) expr(e ast.Expr, want types.Type) ([]pre, string) {
 	t := ft.t
+	if p, v, ok := ft.exprSeg(e, want); ok { // segstate.go
+		return p, v
+	}
 	if p, v, ok := ft.exprExt(e, want); ok { // ext.go
 		return p, v
 	}
